@@ -24,16 +24,39 @@ ALIAS_ARRAY = {"numpy.asarray", "numpy.asanyarray", "numpy.ravel", "numpy.reshap
 DEPTH = 4
 
 
-class Val:
-    """levels[d]: tags of the objects exactly d reference steps inside the value (last level: d or deeper)."""
-    __slots__ = ("levels",)
+class ParamFields:
+    """Field map of a parameter that is an instance of a private helper class: field f of parameter p is the abstract object
+    ('P', p, 1, f), what is inside it ('P', p, 2, f) ...; `over` holds what the function itself stored into a field."""
 
-    def __init__(self, top=(), inner=(), levels=None):
+    def __init__(self, p, over=None):
+        self.p = p
+        self.over = dict(over or {})
+
+    def get(self, name):
+        base = Val(levels=[{("P", self.p, min(i + 1, DEPTH - 1), name)} for i in range(DEPTH)])
+        return base.join(self.over[name]) if name in self.over else base
+
+    def __eq__(self, o):
+        return isinstance(o, ParamFields) and o.p == self.p and o.over == self.over
+
+    def __contains__(self, name):
+        return True
+
+
+class Val:
+    """levels[d]: tags of the objects exactly d reference steps inside the value (last level: d or deeper).
+    fields (optional): for ONE object built here (or a parameter of a private helper class), what each named field holds;
+    the key '*' stands for the elements of a container.  Where fields are known an attribute load is field-sensitive; the
+    levels always remain a sound summary of everything inside."""
+    __slots__ = ("levels", "fields")
+
+    def __init__(self, top=(), inner=(), levels=None, fields=None):
         if levels is not None:
             self.levels = tuple(frozenset(l) for l in levels)
         else:
             inner = frozenset(inner)
             self.levels = (frozenset(top),) + (inner,) * (DEPTH - 1)
+        self.fields = fields
 
     @property
     def top(self):
@@ -47,30 +70,73 @@ class Val:
         return r
 
     def join(self, o: "Val") -> "Val":
-        return Val(levels=[a | b for a, b in zip(self.levels, o.levels)])
+        lv = [a | b for a, b in zip(self.levels, o.levels)]
+        fl = None
+        if isinstance(self.fields, dict) and isinstance(o.fields, dict):
+            fl = {}
+            for k in set(self.fields) | set(o.fields):
+                a, b = self.fields.get(k), o.fields.get(k)
+                fl[k] = a.join(b) if a is not None and b is not None else (a if a is not None else b).join(
+                    (o if a is not None else self).child_levels())
+        elif isinstance(self.fields, ParamFields) and self.fields == o.fields:
+            fl = self.fields
+        elif self.fields is not None and o.fields is None and not o.inner and o.top <= {F}:
+            fl = self.fields      # joined with a scalar / None: still the same object
+        elif o.fields is not None and self.fields is None and not self.inner and self.top <= {F}:
+            fl = o.fields
+        return Val(levels=lv, fields=fl)
 
     def all(self):
         return self.top | self.inner
 
-    def child(self) -> "Val":
-        """what one reference step inside holds (field / element access)"""
+    def child_levels(self) -> "Val":
         lv = list(self.levels[1:]) + [self.levels[-1]]
         return Val(levels=lv)
+
+    def child(self) -> "Val":
+        """what one reference step inside holds (element access, or a field whose name is not tracked)"""
+        if isinstance(self.fields, dict) and "*" in self.fields and len(self.fields) == 1:
+            return self.fields["*"]
+        return self.child_levels()
+
+    def attr(self, name) -> "Val":
+        """what field `name` holds"""
+        if isinstance(self.fields, dict) and "*" not in self.fields:
+            if name in self.fields:
+                return self.fields[name]
+            return self.child_levels()
+        if isinstance(self.fields, ParamFields):
+            return self.fields.get(name)
+        return self.child_levels()
+
+    def with_field(self, name, v: "Val") -> "Val":
+        """the same object after `obj.name = v` may have happened (weak update)"""
+        lv = [a | b for a, b in zip(self.levels, v.wrapped().levels)]
+        lv[0] = self.levels[0]
+        if isinstance(self.fields, dict) and "*" not in self.fields:
+            fl = dict(self.fields)
+            fl[name] = fl[name].join(v) if name in fl else v
+            return Val(levels=lv, fields=fl)
+        if isinstance(self.fields, ParamFields):
+            ov = dict(self.fields.over)
+            ov[name] = ov[name].join(v) if name in ov else v
+            return Val(levels=self.levels, fields=ParamFields(self.fields.p, ov))
+        return Val(levels=lv, fields=self.fields)
 
     def wrapped(self) -> "Val":
         """a fresh container / object holding this value"""
         lv = [frozenset({F})] + list(self.levels[:-1])
         lv[-1] = lv[-1] | self.levels[-1]
-        return Val(levels=lv)
+        return Val(levels=lv, fields=({"*": self} if self.fields is not None else None))
 
     def shallow_copy(self) -> "Val":
-        return Val(levels=[frozenset({F})] + list(self.levels[1:]))
+        return Val(levels=[frozenset({F})] + list(self.levels[1:]), fields=self.fields if isinstance(self.fields, dict) else None)
 
     def __eq__(self, o):
-        return self.levels == o.levels
+        return self.levels == o.levels and self.fields == o.fields
 
     def __repr__(self):
-        return "Val(%s)" % [sorted(map(str, l)) for l in self.levels]
+        return "Val(%s%s)" % ([sorted(map(str, l)) for l in self.levels], "" if self.fields is None else " fields")
 
 
 FRESH = Val({F}, {F})
@@ -92,6 +158,7 @@ class Mutation:
 class Summary:
     def __init__(self):
         self.mutates: List[Mutation] = []      # in the function's own tag space
+        self.field_writes: List[Tuple[str, str, Val]] = []   # (parameter, field, value stored) for parameters of private helper classes
         self.ret = Val()
         self.ambient = False
 
@@ -124,6 +191,9 @@ class Effects:
         vals: Dict[str, Val] = {}
         for p in f.params + f.kwonly:
             vals[p] = self._param_val(p)
+        if f.cls is not None and _is_helper_class(f.cls) and f.params and not f.is_staticmethod and not f.is_classmethod:
+            p0 = f.params[0]
+            vals[p0] = Val(levels=vals[p0].levels, fields=ParamFields(p0))
         if f.vararg:
             vals[f.vararg] = self._param_val(f.vararg)
         if f.kwarg:
@@ -150,6 +220,18 @@ class Effects:
                     continue
                 elif isinstance(n, ast.NamedExpr):
                     tgts, v = [n.target], self.value(f, env, vals, n.value)
+                elif isinstance(n, ast.Call) and isinstance(n.func, ast.Attribute) and isinstance(n.func.value, ast.Name) \
+                        and n.func.value.id in vals and vals[n.func.value.id].fields is not None:
+                    # a method of a private helper class that stores into its own fields: the receiver now holds those values
+                    c, self_val = self._callee_and_self(f, env, vals, n)
+                    if isinstance(c, FuncInfo) and c.params and self_val is not None:
+                        s = self.summary(c)
+                        if s.field_writes:
+                            argmap = self._bind_call(c, n, f, env, vals, self_val)
+                            for p0, fld, fv in s.field_writes:
+                                if p0 == c.params[0]:
+                                    changed |= self._store_field(vals, n.func.value.id, fld, self._map_ret(fv, argmap))
+                    continue
                 if tgts is None:
                     continue
                 for t in tgts:
@@ -167,6 +249,11 @@ class Effects:
                     if isinstance(t, (ast.Attribute, ast.Subscript)):
                         base = self.value(f, env, vals, t.value)
                         summ.mutates.append(Mutation(f, n, base.top, "store to %s" % ast.unparse(t)))
+                    if isinstance(t, ast.Attribute) and isinstance(t.value, ast.Name) and isinstance(vals.get(t.value.id, SCALAR).fields, ParamFields) \
+                            and not isinstance(n, ast.Delete):
+                        pf = vals[t.value.id].fields
+                        if t.attr in pf.over:
+                            summ.field_writes.append((pf.p, t.attr, pf.over[t.attr]))
             elif isinstance(n, ast.Call):
                 self._call_effects(f, env, vals, n, summ)
             elif isinstance(n, (ast.Global, ast.Nonlocal)):
@@ -213,7 +300,32 @@ class Effects:
             for e in target.elts:
                 ch |= self._bind(vals, e, elem if not isinstance(e, ast.Starred) else v)
             return ch
+        if isinstance(target, ast.Attribute) and isinstance(target.value, ast.Name) and target.value.id in vals:
+            # obj.field = v: the object now (also) holds v in that field
+            return self._store_field(vals, target.value.id, target.attr, v)
         return False
+
+    def _store_field(self, vals, name, field, v: Val) -> bool:
+        ch = False
+        old = vals[name]
+        if old.fields is None:
+            return False
+        # the same store may have hit any local that can be the same object: every tracked object with that field (weak update)
+        for nm, cur in list(vals.items()):
+            if nm != name and not (isinstance(cur.fields, dict) and (field in cur.fields or ("*" in cur.fields and isinstance(cur.fields["*"].fields, dict)
+                                                                                              and field in cur.fields["*"].fields))):
+                continue
+            if nm != name and isinstance(old.fields, ParamFields):
+                continue
+            if isinstance(cur.fields, dict) and "*" in cur.fields:
+                inner = cur.fields["*"].with_field(field, v)
+                new = Val(levels=[a | b for a, b in zip(cur.levels, inner.wrapped().levels)], fields={"*": inner})
+            else:
+                new = cur.with_field(field, v)
+            if new != cur:
+                vals[nm] = new
+                ch = True
+        return ch
 
     # ------------------------------------------------------------------
     def value(self, f: FuncInfo, env, vals, e) -> Val:
@@ -244,7 +356,7 @@ class Effects:
             if bt.kind == "cls" and e.attr in bt.cls.methods and bt.cls.methods[e.attr].is_property:
                 s = self.summary(bt.cls.methods[e.attr])
                 return self._map_ret(s.ret, {bt.cls.methods[e.attr].params[0]: b} if bt.cls.methods[e.attr].params else {})
-            return b.child()
+            return b.attr(e.attr)
         if isinstance(e, ast.Subscript):
             b = self.value(f, env, vals, e.value)
             if isinstance(e.slice, ast.Slice):
@@ -310,6 +422,13 @@ class Effects:
                     a = argmap.get(t[1])
                     if a is None:
                         continue
+                    if len(t) == 4 and a.fields is not None:
+                        sub = a.attr(t[3])      # the object(s) in that field of the argument, then d-1 steps inside
+                        d = min(max(t[2] - 1, 0), DEPTH - 1)
+                        out |= sub.levels[d]
+                        if t[2] - 1 >= DEPTH - 1:
+                            out |= sub.levels[-1]
+                        continue
                     d = min(t[2], DEPTH - 1)
                     out |= a.levels[d]
                     if t[2] >= DEPTH - 1:
@@ -317,7 +436,14 @@ class Effects:
                 else:
                     out.add(t)
             return out
-        return Val(levels=[m(l) for l in ret.levels])
+        fl = None
+        if isinstance(ret.fields, dict):
+            fl = {k: self._map_ret(v, argmap) for k, v in ret.fields.items()}
+        elif isinstance(ret.fields, ParamFields):
+            a = argmap.get(ret.fields.p)
+            if a is not None and a.fields is not None and not ret.fields.over:
+                fl = a.fields    # the parameter object itself is handed back
+        return Val(levels=[m(l) for l in ret.levels], fields=fl)
 
     def _bind_call(self, callee: FuncInfo, call: ast.Call, f, env, vals, self_val: Optional[Val]):
         argmap: Dict[str, Val] = {}
@@ -397,6 +523,29 @@ class Effects:
             v = v.join(self.value(f, env, vals, a).wrapped())
         for kw in call.keywords:
             v = v.join(self.value(f, env, vals, kw.value).wrapped())
+        c = env.resolve_callee(call)
+        if isinstance(c, ClassInfo) and _is_helper_class(c):
+            # an instance of a private helper class: remember which field holds what
+            fl = {}
+            if c.is_attrs or getattr(c, "is_namedtuple", False):
+                names = [x.name for x in c.fields]
+                for nm in names:
+                    fl[nm] = SCALAR
+                for nm, a in zip(names, call.args):
+                    fl[nm] = self.value(f, env, vals, a)
+                for kw in call.keywords:
+                    if kw.arg is not None:
+                        fl[kw.arg] = self.value(f, env, vals, kw.value)
+            elif "__init__" in c.methods:
+                init = c.methods["__init__"]
+                s = self.summary(init)
+                argmap = self._bind_call(init, call, f, env, vals, Val(levels=v.levels, fields={}))
+                for p0, fld, fv in s.field_writes:
+                    if init.params and p0 == init.params[0]:
+                        mv = self._map_ret(fv, argmap)
+                        fl[fld] = fl[fld].join(mv) if fld in fl else mv
+                        v = v.join(mv.wrapped())
+            return Val(levels=v.levels, fields=fl)
         return v
 
     def _call_effects(self, f, env, vals, call: ast.Call, summ: Summary):
@@ -449,6 +598,11 @@ class Effects:
             if tags:
                 out.append((mu, tags))
         return out
+
+
+def _is_helper_class(c: ClassInfo) -> bool:
+    """A private class (leading underscore): not part of the API, only ever built and used inside the package's own functions."""
+    return c.name.startswith("_") and not c.name.startswith("__")
 
 
 def _load(node):
